@@ -60,13 +60,46 @@ func vfC04WGen(rt *rapid.T) *vfC04WCase {
 	if rapid.IntRange(0, 3).Draw(rt, "wild") == 0 {
 		owners["*.w.z.test."] = []uint16{dns.TypeTXT}
 	}
+	// aliases whose target lives shorter (or longer) than the alias: one across the cut, one inside the zone
+	var hosts []string
+	for o := range owners {
+		if !strings.HasPrefix(o, "*") && !strings.HasPrefix(o, "a.d.") {
+			hosts = append(hosts, o)
+		}
+	}
+	sort.Strings(hosts)
+	tldOwners := map[string][]uint16{"alias.test.": {dns.TypeCNAME}, "ali.test.": {dns.TypeCNAME}}
+	tldTargets := map[string]string{"alias.test.": "nope.z.test.", "ali.test.": rapid.SampledFrom(hosts).Draw(rt, "alitarget")}
+	owners["al.z.test."] = []uint16{dns.TypeCNAME}
+	zTargets := map[string]string{"al.z.test.": rapid.SampledFrom(hosts).Draw(rt, "altarget")}
+	zTTLs := map[string]uint32{"al.z.test./CNAME": ttl("alttl")}
 	specs := []vfworld.ZoneSpec{
 		{Apex: ".", Signed: true, TTL: 3600, NegTTL: 3600},
-		{Apex: "test.", Signed: true, TTL: 3600, NegTTL: neg("tldneg"), Owners: map[string][]uint16{"alias.test.": {dns.TypeCNAME}}, Targets: map[string]string{"alias.test.": "nope.z.test."}},
-		{Apex: "z.test.", Signed: true, NSEC3: rapid.IntRange(0, 3).Draw(rt, "nsec3") == 0, TTL: ttl("zttl"), NegTTL: neg("zneg"), Owners: owners},
+		{Apex: "test.", Signed: true, TTL: 3600, NegTTL: neg("tldneg"), Owners: tldOwners, Targets: tldTargets},
+		{Apex: "z.test.", Signed: true, NSEC3: rapid.IntRange(0, 3).Draw(rt, "nsec3") == 0, TTL: ttl("zttl"), NegTTL: neg("zneg"), Owners: owners, Targets: zTargets, TTLs: zTTLs},
 	}
 	c.W = vfworld.Build(specs)
 	qlabels := []string{"a", "b", "c", "d", "e", "f", "g", "h", "k", "l", "m", "n", "p", "q", "t", "u", "x", "y", "zz"}
+	if rapid.IntRange(0, 2).Draw(rt, "aliasopening") == 0 {
+		// the target first, then its alias (fetched while the target sits in cache), then the alias again from cache
+		al := rapid.SampledFrom([]string{"ali.test.", "al.z.test."}).Draw(rt, "aliaswhich")
+		tg := tldTargets["ali.test."]
+		if al == "al.z.test." {
+			tg = zTargets["al.z.test."]
+		}
+		st := vfC04WStep{DO: rapid.Bool().Draw(rt, "do"), Wire: rapid.Bool().Draw(rt, "wire"), Client: 1, Qtype: dns.TypeA}
+		st.Name = tg
+		c.Steps = append(c.Steps, st)
+		if rapid.Bool().Draw(rt, "aliasgap") {
+			c.Steps = append(c.Steps, vfC04WStep{Sleep: time.Duration(rapid.SampledFrom([]int{1, 3, 4}).Draw(rt, "sleepsec")) * time.Second})
+		}
+		st.Name = al
+		c.Steps = append(c.Steps, st)
+		st.Wire = rapid.Bool().Draw(rt, "wire")
+		c.Steps = append(c.Steps, st)
+		c.Steps = append(c.Steps, vfC04WStep{Sleep: time.Duration(rapid.SampledFrom([]int{1, 3, 6, 21}).Draw(rt, "sleepsec")) * time.Second})
+		c.Steps = append(c.Steps, st)
+	}
 	steps := rapid.IntRange(3, 12).Draw(rt, "nsteps")
 	for i := 0; i < steps; i++ {
 		if rapid.IntRange(0, 3).Draw(rt, "sleep") == 0 {
@@ -75,9 +108,13 @@ func vfC04WGen(rt *rapid.T) *vfC04WCase {
 		}
 		st := vfC04WStep{DO: rapid.Bool().Draw(rt, "do"), CD: rapid.IntRange(0, 7).Draw(rt, "cd") == 0, Wire: rapid.Bool().Draw(rt, "wire"), Client: byte(rapid.IntRange(1, 3).Draw(rt, "client")),
 			Qtype: rapid.SampledFrom([]uint16{dns.TypeA, dns.TypeA, dns.TypeA, dns.TypeTXT, dns.TypeAAAA}).Draw(rt, "qtype")}
-		switch rapid.IntRange(0, 9).Draw(rt, "namekind") {
+		switch rapid.IntRange(0, 11).Draw(rt, "namekind") {
 		case 0:
 			st.Name = "alias.test."
+		case 10:
+			st.Name = "ali.test."
+		case 11:
+			st.Name = "al.z.test."
 		case 1:
 			st.Name = rapid.SampledFrom(qlabels).Draw(rt, "ql") + ".d.z.test."
 		case 2:
@@ -113,6 +150,7 @@ func vfC04WRun(t *testing.T, dir string, c *vfC04WCase) (violation string, trace
 		since := func() time.Duration { return time.Since(vfworld.Epoch) }
 		ecsSteps := map[string]bool{}
 		asked := map[string]bool{}
+		aliasFromCachedTarget := map[string]bool{}
 		for i, st := range c.Steps {
 			if st.Name == "" {
 				time.Sleep(st.Sleep)
@@ -189,6 +227,47 @@ func vfC04WRun(t *testing.T, dir string, c *vfC04WCase) (violation string, trace
 				stats["served-from-cache"]++
 			}
 			negative := len(m.Answer) == 0 || m.Rcode == dns.RcodeNameError
+			if !negative && len(m.Answer) > 1 && st.Qtype != dns.TypeCNAME {
+				// An alias and what it leads to. When the alias was fetched while its target came from cache, the alias
+				// entry that is written back was composed from a cached piece and inherits that piece's lifetime; on
+				// later hits the alias record may then not show more than what remains of any record it leads to
+				// (TTLs are constant per world, so a target fetched again later only has more left).
+				type piece struct {
+					rr    dns.RR
+					bound int64
+					fresh bool
+				}
+				var chain []piece
+				for _, rr := range m.Answer {
+					if rr.Header().Rrtype == dns.TypeRRSIG {
+						continue
+					}
+					if d, ok := rw.Net.Delivered(rr); ok {
+						chain = append(chain, piece{rr, int64(d.TTL) - int64((now-d.At)/time.Second), d.At >= now})
+					}
+				}
+				key := fmt.Sprint(strings.ToLower(st.Name), st.Qtype, st.CD) // the DO bit does not partition the cache
+				if up > 0 {
+					composed := len(chain) > 1 && chain[0].rr.Header().Rrtype == dns.TypeCNAME && chain[0].fresh
+					for _, later := range chain[1:] {
+						if later.fresh {
+							composed = false
+						}
+					}
+					aliasFromCachedTarget[key] = composed
+					if composed {
+						stats["alias-fetched-over-cached-target"]++
+					}
+				} else if aliasFromCachedTarget[key] {
+					stats["composed-alias-from-cache"]++
+					for _, later := range chain[1:] {
+						if int64(chain[0].rr.Header().Ttl) > later.bound+1 {
+							sort.Strings(pieces)
+							fail("step %d: at t=%s the alias %s is served from cache with TTL %d although %s/%s, which it leads to and which was already cached when the alias was fetched, has %d s left - the re-cached alias did not inherit its cached piece's lifetime; pieces: %v", i, now, chain[0].rr.Header().Name, chain[0].rr.Header().Ttl, later.rr.Header().Name, dns.TypeToString[later.rr.Header().Rrtype], later.bound, pieces)
+						}
+					}
+				}
+			}
 			if up == 0 && negative && len(m.Ns) > 1 {
 				// composed from cached pieces: nothing in it may outlive the shortest piece
 				stats["composed-negative-from-cache"]++
@@ -237,6 +316,10 @@ func vfC04WRun(t *testing.T, dir string, c *vfC04WCase) (violation string, trace
 				stats["ecs-question"]++
 			}
 			asked[strings.ToLower(st.Name)+"/"+fmt.Sprint(st.Qtype)] = true
+			for _, hop := range c.W.Resolve(st.Name, st.Qtype).Steps {
+				// the chase asks the alias target on the client's behalf: a later exact hit on it is no synthesis
+				asked[strings.ToLower(hop.Target)+"/"+fmt.Sprint(st.Qtype)] = true
+			}
 			trace = append(trace, line)
 		}
 	})
